@@ -323,6 +323,13 @@ func (r *srvRun) feedRaw(kind string, data string) {
 	r.settleEnv()
 }
 
+// feedBytes feeds an arbitrary byte record; what it means is decided by the wire model (Wire.parse_msgs).
+func (r *srvRun) feedBytes(data string) {
+	r.log.item("env\tfeed\traw\t%s", hexf([]byte(data)))
+	r.ch.feeds <- feedItem{[]byte(data), nil}
+	r.settleEnv()
+}
+
 func (r *srvRun) feedErr(kind string) {
 	var err error
 	switch kind {
